@@ -104,7 +104,7 @@ def run():
         outside=["whole-tree inventory", "rayon scheduling of run_script", "--match-links --symbolic-links (excluded by the property)", "real file systems"])
     ctx = oblig.Ctx()
     prog = ctx.lib
-    oblig.install_battery(rep, ctx, ["c08_battery", "c04_battery", "c06_battery"])
+    oblig.install_battery(rep, ctx, ["c02_battery", "c08_battery", "c04_battery", "c06_battery"])
     part_common.add(rep, prog, ["retention-count", "no-loss-no-dup", "atomic-subgroups", "patterns", "stale-filter", "mtime-check"], "C02", part_common.make_replayer(ctx))
     try:
         script_obligation(rep, prog)
@@ -125,6 +125,14 @@ def run():
                      replayer=e1.fs_replayer("faults", FSOPS))
     from obligations import C05, C06
     C05.wrappers(rep)
+    # the retained path may be a symbolic link: what a hard link to it refers to
+    try:
+        from obligations import C05_e2
+        C05_e2.hardlink_source(rep, ctx)
+    except Inconclusive as ex:
+        o = Obligation("hard-link source", "E2 mirsym/z3")
+        o.verdict, o.detail = "inconclusive", str(ex)
+        rep.add(o)
     # "max(1, n) replicas": a replica is a sub-group - the sub-grouping itself (hard-link sets, isolate roots) is part of the claim
     try:
         C06.sub_group_obligations(rep, ctx)
